@@ -70,6 +70,16 @@ CLAIMED = {
     note="PARTIAL: the attempt loop (retry until pass or N+1 attempts, stop on success, delay actually waited, pauses excluded) is executor behaviour not yet modelled; end-to-end engine pending.",
     technique="Lean 4 proof (induction over the iterator) + differential correspondence",
     design="§5 C07"),
+ "C15": dict(
+    text="Lean 4 theorems: the argv shape (argv_exact) and environment precedence — every variable nextest sets wins over the inherited environment and Cargo's [env] whatever they contain, and the run id is one value per run (nextest_vars_win, run_id_constant) — over the model of the order of Command::env writes. Tied to the code end-to-end: the real cargo-nextest (rebuilt with hooks) runs scripted test binaries that record their own argv, cwd, pgid, stdin and environment, with hostile test names and a hostile inherited environment, double-spawn on.",
+    note="PARTIAL: shell_words split∘join = id (double-spawn transparency) is not yet proved; process-group leadership, /dev/null stdin and cwd are OS effects checked only end-to-end. Trusted: Lean kernel; Model/Command; the scripted binary's self-report; tools/e2e.py.",
+    technique="Lean 4 proof (list-of-writes semantics) + end-to-end correspondence with scripted processes",
+    design="§5 C15"),
+ "C16": dict(
+    text="Lean 4 theorems on the capture accumulator over an abstract pipe, for EVERY interleaving of writes, closes and reads of any sizes: captured = a prefix of what was written, in order (prefix_invariant, prefix_invariant_run, leak_exit_keeps_prefix), and = everything written once EOF is reached (complete_at_eof). Tied to the code end-to-end: scripted tests write deterministic byte patterns (0 B – 200 kB, chunk sizes 1 B – 1 MiB, binary / invalid UTF-8, both streams, several attempts, concurrent writers); the event-log tap reports length + xxh64 per stream per attempt, recomputed independently; JUnit output attribution per attempt is checked.",
+    note="PARTIAL: pipe/epoll/tokio delivery is assumed (POSIX), the normalisations (lossy UTF-8, XML, ANSI) and combined capture are not checked. Trusted: Lean kernel; Model/Capture; event tap; scripted binary.",
+    technique="Lean 4 proof (invariant over all schedules) + end-to-end correspondence",
+    design="§5 C16"),
 }
 NOT_YET = "not yet claimed: model/theorems for this property are still being built (see DESIGN.md §5); no other technique is substituted"
 
